@@ -541,6 +541,19 @@ fn emit_enc(cx: &mut Ctx, a: &ZcashAddress, ua_items: Option<(NetworkType, Vec<I
     cx.bump("enc");
 }
 
+/// `convert_if_network(expected)` through the recording converter
+fn emit_conv(cx: &mut Ctx, a: &ZcashAddress, expected: NetworkType) {
+    let r = catch(|| a.clone().convert_if_network::<Obs>(expected));
+    let o = match r {
+        None => PANIC.to_string(),
+        Some(Ok(x)) => ok(x.0),
+        Some(Err(ConversionError::IncorrectNetwork { expected: e, actual: act })) => format!("(Err ({}, {}))", net(e), net(act)),
+        Some(Err(_)) => PANIC.to_string(), // the recording converter never fails: would be a model disagreement
+    };
+    case(format!("CConv {} {} {}", obs(a), net(expected), o));
+    cx.bump("conv");
+}
+
 // ---------------------------------------------------------------------------------------------
 // generators
 
@@ -941,6 +954,12 @@ fn main() {
                 case(format!("CCtor {} {} {} {}", net(n), k, hn(&d), obs(&za)));
                 cx.bump("ctor");
                 emit_enc(&mut cx, &za, None, &mut strings);
+                if rep < 4 {
+                    // every kind x network of the value x expected network
+                    for e in NETS {
+                        emit_conv(&mut cx, &za, e);
+                    }
+                }
             }
         }
         for _ in 0..(30 * scale) {
@@ -948,6 +967,11 @@ fn main() {
             if let Some(Ok(Cont::A(ua))) = try_from_items(K::Addr, &its) {
                 let za = ZcashAddress::from_unified(n, ua);
                 emit_enc(&mut cx, &za, Some((n, its.clone())), &mut strings);
+                if r.chance(1, 6) {
+                    for e in NETS {
+                        emit_conv(&mut cx, &za, e);
+                    }
+                }
             }
         }
     }
@@ -957,6 +981,14 @@ fn main() {
         emit_enc(&mut cx, &za, Some((NetworkType::Main, vec![(5, vec![9; 10])])), &mut strings);
     }
 
+    // parsed addresses converted for each expected network (e.g. a testnet TEX string on regtest)
+    for s in strings.iter().step_by(std::cmp::max(1, strings.len() / (40 * scale))) {
+        if let Ok(za) = ZcashAddress::try_from_encoded(s) {
+            for e in NETS {
+                emit_conv(&mut cx, &za, e);
+            }
+        }
+    }
     // strings to parse: the valid ones, unified strings of all three kinds, and near-valid ones
     let mut inputs: Vec<String> = vec![];
     for s in &strings {
